@@ -119,4 +119,39 @@ Matches(term, tok) ==
     [] term = "fieldsep" -> tok.k = "sym" /\ tok.t \in {",", ";"}
     [] OTHER -> \/ (tok.k = "kw" /\ term = "k:" \o tok.t)
                 \/ (tok.k = "sym" /\ term = "s:" \o tok.t)
+\* byte spelling of every keyword / symbol terminal of the grammar
+SpellOf == [ x \in {"do","end","while","repeat","until","if","then","elseif","else","for","in","function","local",
+                  "goto","return","break","nil","false","true","and","or","not",
+                  "&","|","^^","<<",">>",">>>","<<>",">><","\\","<",">","<=",">=","~=","!=","==","..","+","-","*","/","%","^",
+                  "#","~","@","$","=","+=","-=","*=","/=","%=","..=","(",")","{","}","[","]",";",":",",",".","..."} |->
+  CASE x = "do" -> <<100,111>> [] x = "end" -> <<101,110,100>> [] x = "while" -> <<119,104,105,108,101>>
+    [] x = "repeat" -> <<114,101,112,101,97,116>> [] x = "until" -> <<117,110,116,105,108>> [] x = "if" -> <<105,102>>
+    [] x = "then" -> <<116,104,101,110>> [] x = "elseif" -> <<101,108,115,101,105,102>> [] x = "else" -> <<101,108,115,101>>
+    [] x = "for" -> <<102,111,114>> [] x = "in" -> <<105,110>> [] x = "function" -> <<102,117,110,99,116,105,111,110>>
+    [] x = "local" -> <<108,111,99,97,108>> [] x = "goto" -> <<103,111,116,111>> [] x = "return" -> <<114,101,116,117,114,110>>
+    [] x = "break" -> <<98,114,101,97,107>> [] x = "nil" -> <<110,105,108>> [] x = "false" -> <<102,97,108,115,101>>
+    [] x = "true" -> <<116,114,117,101>> [] x = "and" -> <<97,110,100>> [] x = "or" -> <<111,114>> [] x = "not" -> <<110,111,116>>
+    [] x = "&" -> <<38>> [] x = "|" -> <<124>> [] x = "^^" -> <<94,94>> [] x = "<<" -> <<60,60>> [] x = ">>" -> <<62,62>>
+    [] x = ">>>" -> <<62,62,62>> [] x = "<<>" -> <<60,60,62>> [] x = ">><" -> <<62,62,60>> [] x = "\\" -> <<92>>
+    [] x = "<" -> <<60>> [] x = ">" -> <<62>> [] x = "<=" -> <<60,61>> [] x = ">=" -> <<62,61>> [] x = "~=" -> <<126,61>>
+    [] x = "!=" -> <<33,61>> [] x = "==" -> <<61,61>> [] x = ".." -> <<46,46>> [] x = "+" -> <<43>> [] x = "-" -> <<45>>
+    [] x = "*" -> <<42>> [] x = "/" -> <<47>> [] x = "%" -> <<37>> [] x = "^" -> <<94>> [] x = "#" -> <<35>> [] x = "~" -> <<126>>
+    [] x = "@" -> <<64>> [] x = "$" -> <<36>> [] x = "=" -> <<61>> [] x = "+=" -> <<43,61>> [] x = "-=" -> <<45,61>>
+    [] x = "*=" -> <<42,61>> [] x = "/=" -> <<47,61>> [] x = "%=" -> <<37,61>> [] x = "..=" -> <<46,46,61>>
+    [] x = "(" -> <<40>> [] x = ")" -> <<41>> [] x = "{" -> <<123>> [] x = "}" -> <<125>> [] x = "[" -> <<91>> [] x = "]" -> <<93>>
+    [] x = ";" -> <<59>> [] x = ":" -> <<58>> [] x = "," -> <<44>> [] x = "." -> <<46>> [] x = "..." -> <<46,46,46>> ]
+SpellSet(S) == {SpellOf[x] : x \in S}
+KwTerms == {"do","end","while","repeat","until","if","then","elseif","else","for","in","function","local","goto","return","break","nil","false","true"}
+\* does a lexical token (kind k, spelling w as bytes) match grammar terminal h ?
+LexMatches(h, k, w) ==
+  CASE h = "Name" -> k = "name"
+    [] h = "Number" -> k = "num"
+    [] h = "String" -> k = "str"
+    [] h = "Label" -> k = "label"
+    [] h = "binop" -> k \in {"sym", "kw"} /\ w \in SpellSet(BinOps)
+    [] h = "unop" -> k \in {"sym", "kw"} /\ w \in SpellSet(UnOps)
+    [] h = "assignop" -> k = "sym" /\ w \in SpellSet(AssignOps)
+    [] h = "fieldsep" -> k = "sym" /\ w \in {<<44>>, <<59>>}
+    [] OTHER -> \/ (k = "kw" /\ \E x \in KwTerms : ("k:" \o x) = h /\ SpellOf[x] = w)
+                \/ (k = "sym" /\ \E x \in DOMAIN SpellOf : ("s:" \o x) = h /\ SpellOf[x] = w)
 =============================================================================
